@@ -335,6 +335,7 @@ def checkArg (t : Tables) (patterns : List Str) (hasNode : Bool) : ADecl → Res
 def checkArgs (t : Tables) (patterns : List Str) (hasNode : Bool) : List ADecl → Res (List Norm)
   | [] => .ok []
   | d :: ds =>
+    if hasNode ∧ d.name.isNone then .reject "arg:must-have-a-name" else     -- arguments of a wrapped function need a name
     match checkArg t patterns hasNode d with
     | .reject i => .reject i
     | .crash e => .crash e
